@@ -4,6 +4,7 @@ import (
 	"bufio"
 	"fmt"
 	"io"
+	"os"
 	"os/exec"
 	"strconv"
 	"strings"
@@ -43,10 +44,15 @@ type Solver struct {
 	Stats   SolverStats
 	timeout int // ms per query
 	Log     io.Writer
+	IntMode bool // terms are emitted over mathematical integers (only for queries proven overflow-free)
 }
 
 func NewSolver(kind string, timeoutMs int) (*Solver, error) {
 	s := &Solver{kind: kind, timeout: timeoutMs}
+	if lp := os.Getenv("GOSYM_SMTLOG"); lp != "" {
+		f, _ := os.Create(lp)
+		s.Log = f
+	}
 	if err := s.start(); err != nil {
 		return nil, err
 	}
@@ -60,6 +66,8 @@ func (s *Solver) start() error {
 		cmd = exec.Command(s.kind, "-in")
 	case "cvc5":
 		cmd = exec.Command("cvc5", "--incremental", "--lang=smt2", "--produce-models")
+	case "cvc5-int":
+		cmd = exec.Command("cvc5", "--incremental", "--lang=smt2", "--produce-models", "--solve-bv-as-int=sum")
 	default:
 		return fmt.Errorf("unknown solver %q", s.kind)
 	}
@@ -79,7 +87,7 @@ func (s *Solver) start() error {
 	s.defined = map[int]bool{}
 	s.stack = nil
 	switch s.kind {
-	case "cvc5":
+	case "cvc5", "cvc5-int":
 		s.send("(set-logic ALL)\n(set-option :global-declarations true)\n")
 		if s.timeout > 0 {
 			s.send(fmt.Sprintf("(set-option :tlimit-per %d)\n", s.timeout))
@@ -144,7 +152,13 @@ func (s *Solver) define(t *Term, sb *strings.Builder) {
 		}
 		x := f.t
 		s.defined[x.ID] = true
-		if x.Op == OpVar {
+		if s.IntMode {
+			if x.Op == OpVar {
+				fmt.Fprintf(sb, "(declare-const %s %s)\n", smtNameI(x), sortStrI(x.W))
+			} else {
+				fmt.Fprintf(sb, "(define-fun %s () %s %s)\n", smtNameI(x), sortStrI(x.W), smtBodyI(x))
+			}
+		} else if x.Op == OpVar {
 			fmt.Fprintf(sb, "(declare-const %s %s)\n", smtName(x), sortStr(x.W))
 		} else {
 			fmt.Fprintf(sb, "(define-fun %s () %s %s)\n", smtName(x), sortStr(x.W), smtBody(x))
@@ -166,12 +180,19 @@ func (s *Solver) Sync(pc []*Term) {
 	}
 	for _, t := range pc[n:] {
 		s.define(t, &sb)
-		fmt.Fprintf(&sb, "(push 1)\n(assert %s)\n", smtName(t))
+		fmt.Fprintf(&sb, "(push 1)\n(assert %s)\n", s.name(t))
 		s.stack = append(s.stack, t)
 	}
 	if sb.Len() > 0 {
 		s.send(sb.String())
 	}
+}
+
+func (s *Solver) name(t *Term) string {
+	if s.IntMode {
+		return smtNameI(t)
+	}
+	return smtName(t)
 }
 
 func (s *Solver) readLine() (string, error) {
@@ -194,7 +215,7 @@ func (s *Solver) Check(pc []*Term, extra []*Term, vars []*Term) (Verdict, []uint
 	}
 	sb.WriteString("(push 1)\n")
 	for _, e := range extra {
-		fmt.Fprintf(&sb, "(assert %s)\n", smtName(e))
+		fmt.Fprintf(&sb, "(assert %s)\n", s.name(e))
 	}
 	sb.WriteString("(check-sat)\n")
 	s.send(sb.String())
@@ -234,7 +255,7 @@ func (s *Solver) Check(pc []*Term, extra []*Term, vars []*Term) (Verdict, []uint
 		var q strings.Builder
 		q.WriteString("(get-value (")
 		for _, v := range vars {
-			q.WriteString(smtName(v))
+			q.WriteString(s.name(v))
 			q.WriteString(" ")
 		}
 		q.WriteString("))\n")
@@ -244,6 +265,9 @@ func (s *Solver) Check(pc []*Term, extra []*Term, vars []*Term) (Verdict, []uint
 	s.send("(pop 1)\n")
 	if sawErr {
 		res = Unknown
+	}
+	if d := time.Since(t0).Seconds(); d > 5 && os.Getenv("GOSYM_DUMP_SLOW") != "" {
+		s.dumpFlat(pc, extra, fmt.Sprintf("%s/slow_%d_%s.smt2", os.Getenv("GOSYM_DUMP_SLOW"), s.Stats.Queries, res))
 	}
 	switch res {
 	case Sat:
@@ -301,6 +325,18 @@ func (s *Solver) readModel(n int) []uint64 {
 		case c == '(':
 			depth++
 			i++
+			if depth >= 3 && i+2 < len(buf) && buf[i] == '-' && buf[i+1] == ' ' {
+				e := i + 2
+				for e < len(buf) && buf[e] >= '0' && buf[e] <= '9' {
+					e++
+				}
+				if e > i+2 && e < len(buf) && buf[e] == ')' {
+					lastTok = "neg" + string(buf[i+2:e])
+					i = e + 1
+					depth--
+					continue
+				}
+			}
 			if depth >= 2 && i+4 < len(buf) && string(buf[i:i+4]) == "_ bv" {
 				e := i + 4
 				for e < len(buf) && buf[e] >= '0' && buf[e] <= '9' {
@@ -356,6 +392,33 @@ func parseVal(tok string) uint64 {
 	case strings.HasPrefix(tok, "bv"):
 		v, _ := strconv.ParseUint(tok[2:], 10, 64)
 		return v
+	case strings.HasPrefix(tok, "neg"):
+		v, _ := strconv.ParseUint(tok[3:], 10, 64)
+		return -v
+	}
+	if len(tok) > 0 && tok[0] >= '0' && tok[0] <= '9' {
+		v, _ := strconv.ParseUint(tok, 10, 64)
+		return v
 	}
 	return 0
+}
+
+// dumpFlat writes a standalone (non-incremental) SMT-LIB file for pc ∧ extra.
+func (s *Solver) dumpFlat(pc, extra []*Term, path string) {
+	tmp := &Solver{defined: map[int]bool{}, IntMode: s.IntMode}
+	var sb strings.Builder
+	for _, t := range pc {
+		tmp.define(t, &sb)
+	}
+	for _, t := range extra {
+		tmp.define(t, &sb)
+	}
+	for _, t := range pc {
+		fmt.Fprintf(&sb, "(assert %s)\n", tmp.name(t))
+	}
+	for _, t := range extra {
+		fmt.Fprintf(&sb, "(assert %s)\n", tmp.name(t))
+	}
+	sb.WriteString("(check-sat)\n")
+	os.WriteFile(path, []byte(sb.String()), 0o644)
 }
